@@ -1,0 +1,13 @@
+//go:build verif
+
+package sourcerunner
+
+import "time"
+
+// VerifSetWatermarkTicks replaces the 200ms watermark ticker of a deployed runner by a tick channel the
+// verification harness controls (build tag verif only). Call it right after HandleDeploy and before
+// HandleAssignSplits: the event loop picks the new channel up at its next iteration.
+func (r *SourceRunner) VerifSetWatermarkTicks(c <-chan time.Time) {
+	r.watermarkTicker.Stop()
+	r.watermarkTicker = &time.Ticker{C: c}
+}
